@@ -143,6 +143,15 @@ CHECKS = {
         "and each queued job is handed out once.",
    note="xtp is not built here: units are parsed with synthesised flags (stated assumption). Not decided: behaviour at real crash "
         "points, boost::interprocess semantics, exception paths."),
+ "C09": dict(cat="other", ref="DESIGN.md section 4 C09",
+   technique="who-may-write analysis of the status field, CFG required-edge check tying the Success path to checkConvergence's un-negated result, must-assign dataflow with helper summaries over the instantiated solve template, AST shape of the convergence predicate, option literals versus the shipped option description",
+   text="Decides only the status-honesty clause: Success can be written solely by storeConvergedData, which solve reaches only when "
+        "checkConvergence returned true; that predicate is 'all requested residual norms < tol_'; every run of solve assigns the status "
+        "before it can return, so a reused solver cannot report a stale Success; unconverged roots are zeroed and reported as "
+        "NoConvergence; accepted option literals equal the shipped choices.",
+   note="NOT decided - and this is most of the property: returned values being the lowest eigenvalues, orthonormality, residual "
+        "bounds, convergence for diagonally dominant matrices, the Hamiltonian mode. Those are numerical and outside static analysis. "
+        "xtp is not built here; units parsed with synthesised flags."),
 }
 NA = {
 }
